@@ -60,7 +60,7 @@ type schedThr struct {
 	fin      bool
 	last     string // sync point the thread is parked at ("end" = idle)
 	gid      uint64
-	adopted  bool // goroutine created inside ugo (Eval.run): it ends without an "end" park
+	adopted  bool   // goroutine created inside ugo (Eval.run): it ends without an "end" park
 	arrived  string // probing schedules: sync point reached while nobody was waiting for it
 }
 
@@ -76,19 +76,20 @@ type schedEngine struct {
 	R, ab    *schedThr
 	inChild  atomic.Bool // R is inside inv.Invoke
 	// oracle state
-	cDepth     int    // nesting of Abort calls of the aborting thread (1 root, 2 child)
-	armed      bool   // a root store happened while R was inside Run (this Run)
-	rootWin    bool   // … while R was between Run entry and the root reset
-	rootAt     string // where R was at that store
-	childWin   bool   // a child store happened while R was between Aborted() and the child's reset
-	late       bool   // a child was registered after the abort's pool snapshot
-	extra      int    // instructions executed while armed (this Run)
-	totalExtra int
-	storeInRun bool
-	invokeErrs int
-	nRuns      int
-	bad        []PropViolation
-	probe      bool
+	cDepth      int    // nesting of Abort calls of the aborting thread (1 root, 2 child)
+	armed       bool   // a root store happened while R was inside Run (this Run)
+	rootWin     bool   // … while R was between Run entry and the root reset
+	rootAt      string // where R was at that store
+	childWin    bool   // a child store happened while R was between Aborted() and the child's reset
+	late        bool   // a child was registered after the abort's pool snapshot
+	extra       int    // instructions executed while armed (this Run)
+	totalExtra  int
+	storeInRun  bool
+	invokeErrs  int
+	nRuns       int
+	bad         []PropViolation
+	probe       bool
+	timerBlocks int // steps that ended because the watchdog fired (not because blocking was predicted)
 }
 
 func (e *schedEngine) lookup(gid uint64) *schedThr {
@@ -275,6 +276,7 @@ func (e *schedEngine) step(t *schedThr, predictBlocked bool) string {
 				return "end"
 			}
 		case <-tm.C:
+			e.timerBlocks++
 			return "!blocked"
 		}
 	}
@@ -724,8 +726,28 @@ func runSched(c *Ctx) {
 			c.Violation(PropViolation{Property: "C09", What: err.Error(), Input: sc.name, Sig: "C09:harness-calibration"})
 			continue
 		}
-		for _, dirs := range sc.schedules(c) {
+		for si, dirs := range sc.schedules(c) {
+			if si%200 == 0 {
+				// scheduling latency of this machine right now: a goroutine woken by a 1 ms timer that
+				// takes more than 8 ms to run means the watchdog period must be stretched
+				wd = schedWatchdog()
+				t0 := time.Now()
+				done := make(chan struct{})
+				go func() { time.Sleep(time.Millisecond); close(done) }()
+				<-done
+				if lat := time.Since(t0); lat > 8*time.Millisecond {
+					wd *= 10
+					c.Count("watchdog-stretched")
+				}
+			}
 			res, e, _ := sc.execute(dirs, wd, false)
+			if e.timerBlocks > 0 && !(len(dirs) > 0 && dirs[0] == "P") {
+				// the watchdog fired in a schedule that does not probe a real mutex: on a loaded machine a
+				// runnable goroutine may simply not have been scheduled within the period.  The schedule is
+				// executed again with a ten times longer period, and that run is the one recorded.
+				c.Count("watchdog-retry")
+				res, e, _ = sc.execute(dirs, wd*10, false)
+			}
 			if strings.Contains(res, "!blocked") && sc.family == "run" {
 				// every 6th schedule in which a thread would block on pool.mu is run a second
 				// time as a probing schedule: the thread is really released against the mutex
